@@ -7,7 +7,7 @@ pub(crate) mod phys;
 pub(crate) mod session;
 pub(crate) mod shutdown;
 pub(crate) mod slice_ext;
-#[cfg(dnp3_verif)]
+#[cfg(all(test, dnp3_verif))]
 pub(crate) mod verif_trace;
 pub(crate) struct Smallest<T>
 where
